@@ -908,6 +908,8 @@ def sm_op(sym, r):
         op = {"op": "stop", "id": sid, "code": r.choice([4, 8])}
     elif k == "d":
         op = {"op": "read", "id": sid, "ordered": True, "max_len": r.choice([5, 100000])}
+    elif k == "u":
+        op = {"op": "read", "id": sid, "ordered": False, "max_len": r.choice([5, 100000])}
     elif k == "e":
         op = {"op": "received_reset", "id": sid}
     else:
@@ -937,7 +939,7 @@ def streamsm_from_seq(seq, r, idx):
             steps.append(sm_op(sym, r))
     steps.append({"do": "run", "us": 400000})
     # closing round: every operation once more on both sides
-    for sym in ["cq0", "sq0", "ce0", "se0", "cd0", "sd0", "cw0", "sw0", "cf0", "sf0", "cs0", "ss0", "cr0", "sr0", "ce0", "se0", "cd0", "sd0"]:
+    for sym in ["cq0", "sq0", "ce0", "se0", "cd0", "sd0", "cw0", "sw0", "cf0", "sf0", "cu0", "su0", "cs0", "ss0", "cr0", "sr0", "ce0", "se0", "cd0", "sd0"]:
         if r.random() < 0.7:
             steps.append(sm_op(sym, r))
     steps.append({"do": "run", "us": 400000})
@@ -981,9 +983,9 @@ def streamsm_random(r, idx):
             sid = r.choice(pool)
             uni = (sid // 2) % 2 == 1
             init_side = 1 if sid % 2 == 0 else 0
-            kind = r.choice(["w", "f", "r", "q"] if (not uni or side == init_side) else ["d", "s", "e"])
+            kind = r.choice(["w", "f", "r", "q"] if (not uni or side == init_side) else ["d", "d", "s", "e", "u"])
             if not uni and r.random() < 0.5:
-                kind = r.choice(["d", "s", "e"])
+                kind = r.choice(["d", "d", "s", "e", "u"])
             sym = ("c" if side == 1 else "s") + kind + str(sid)
             steps.append(sm_op(sym, r))
     steps.append({"do": "run", "us": 600000})
